@@ -250,6 +250,23 @@ def r_directive_mode_consumption(r, prog):
     EK = 'slicec::parsers::preprocessor::tokens::ErrorKind'
     reach = guards.reach_guards(prog, lx, PL)
     errs = {a['rv']['v'] for a in aggregates(prog, EK, crates=('slicec',)) if a['fn'].path in reach}
+    # ... under nothing but the spelling of the name: a '#' with no name after it is MissingDirective whatever follows; any other condition
+    # on these errors means some malformed directive is silently accepted
+    ek_aggs = [a for a in aggregates(prog, EK, crates=('slicec',)) if a['rv']['v'] in ('MissingDirective', 'UnknownDirective')]
+    for g_, bb_, gs in guards.family_sites(prog, lx, PL, lambda g: [a['bb'] for a in ek_aggs if a['fn'] is g and not g.blocks[a['bb']].get('cleanup')]):
+        v = [a['rv']['v'] for a in ek_aggs if a['fn'] is g_ and a['bb'] == bb_][0]
+        other = [c for c in gs if not re.match(r"^!?\(?eq\(read_identifier\(arg1\),'\w*'\)\)?$", c) and not re.match(r'^arg2 == 35$', c)]
+        # and on every path: once the name is known to be empty (MissingDirective) nothing but the error may be returned
+        if v == 'MissingDirective':
+            brs = [b for b in branches_on_call(g_, lambda c: c.name() == 'eq' and len(c.args) == 2 and "''" in (vexpr(g_, c.args[0]), vexpr(g_, c.args[1])))]
+            if not brs:
+                other = other + ['(no comparison of the name with the empty string found)']
+            elif not all(must_pass(g_, b['true'], g_.return_blocks(), [bb_]) for b in brs):
+                other = other + ['a further test after the name was found empty']
+        if other:
+            r.finding('directive-error-narrowed:%s' % v, g_.span, 'ErrorKind::%s is produced only under %s: the same malformed directive is accepted silently when that does not hold' % (v, other))
+        else:
+            r.ok('ErrorKind::%s depends on the directive name alone' % v)
     for v in ('MissingDirective', 'UnknownDirective', 'UnknownSymbol'):
         if v in errs:
             r.ok('the directive lexer produces ErrorKind::%s' % v)
